@@ -33,6 +33,12 @@ def units(tier):
     us += func_units(M + "._set_attribute_single", tier, only=lambda i: i["field"] in ("DF394", "DF395", "DF396", "IDF035", "IDF037", "IDF038"))
     from contracts.message_leaf import coefficient_count_lemma
     us.append(ground_unit("igs.coefficient_counts", coefficient_count_lemma))
+    us.append(ground_unit("tables.field_entries", tablecheck.field_entry_lemmas))
+    # "every defined identity can be decoded": the MSM maps are built for every mask (no mask makes a defined MSM type fail)
+    us += func_units(M + "._getsatcellmaps", tier)
+    from spec import msm as _msm
+    from props.common import lemma_unit as _lu
+    us.append(_lu("msm.fold_lemmas", _msm.fold_lemmas))
     return us
 
 
